@@ -10,6 +10,7 @@
 #include "../../vlib/vlib.h"
 #include <pthread.h>
 #include <atomic>
+#include <deque>
 extern "C" {
 #include <plibsys.h>
 }
@@ -41,7 +42,9 @@ void showValue(const Case &c, std::ostream &os) { os << to_text(c); }
 
 struct Shared {
   Case c;
-  PMutex *m = nullptr; PSpinLock *s = nullptr;
+  PMutex *m = nullptr; PSpinLock *s = nullptr; PRWLock *rw = nullptr; PCondVariable *cv_ne = nullptr, *cv_nf = nullptr;
+  std::deque<long> queue; long produced = 0, consumed_sum = 0, consumed_n = 0; size_t cap = 2;
+  std::atomic<long> tls_destroyed{0}; PUThreadKey *key = nullptr; std::vector<long> results;
   long rec_counter = 0, rec_check = 0;         // plain, protected by the lock
   volatile pint word = 0; volatile psize pword = 0;
   vector<vector<long>> olds;                   // per thread returned values
@@ -87,6 +90,33 @@ void *worker(void *arg) {
       g.rec_counter = c + 1;
       g.rec_check = (c + 1) * 7;
       do_unlock();
+    }
+  } else if (k == "rwrec") {
+    // even threads write (exclusive), odd threads read (shared) a plain record under PRWLock; trylock variants mixed in
+    for (int i = 0; i < g.c.N; i++) {
+      noise(st);
+      bool writer = (ti % 2) == 0, use_try = (st >> 20) % 4 == 0;
+      if (writer) {
+        if (use_try) { if (!p_rwlock_writer_trylock(g.rw)) continue; } else if (!p_rwlock_writer_lock(g.rw)) { set_error("writer_lock returned FALSE"); return NULL; }
+        long c = g.rec_counter; if (g.rec_check != c * 7) { set_error("record inconsistent under the writer lock"); p_rwlock_writer_unlock(g.rw); return NULL; }
+        noise(st); g.rec_counter = c + 1; g.rec_check = (c + 1) * 7; g.trues++;
+        p_rwlock_writer_unlock(g.rw);
+      } else {
+        if (use_try) { if (!p_rwlock_reader_trylock(g.rw)) continue; } else if (!p_rwlock_reader_lock(g.rw)) { set_error("reader_lock returned FALSE"); return NULL; }
+        long c = g.rec_counter; noise(st); if (g.rec_check != c * 7 || g.rec_counter != c) { set_error("record changed or inconsistent while a reader holds the lock"); p_rwlock_reader_unlock(g.rw); return NULL; }
+        p_rwlock_reader_unlock(g.rw);
+      }
+    }
+  } else if (k == "bbuf") {
+    // bounded buffer: even threads produce N items each, odd threads consume; signal/broadcast chosen by the noise seed
+    bool producer = (ti % 2) == 0; int nprod = (g.c.T + 1) / 2, ncons = g.c.T / 2;
+    long quota = producer ? g.c.N : ((long)nprod * g.c.N) / ncons + (ti / 2 < ((long)nprod * g.c.N) % ncons ? 1 : 0);
+    for (long i = 0; i < quota; i++) {
+      noise(st);
+      p_mutex_lock(g.m);
+      if (producer) { while (g.queue.size() >= g.cap) p_cond_variable_wait(g.cv_nf, g.m); g.queue.push_back(ti * 1000000L + i); g.produced++; if (g.c.noise % 2) p_cond_variable_broadcast(g.cv_ne); else p_cond_variable_signal(g.cv_ne); }
+      else { while (g.queue.empty()) p_cond_variable_wait(g.cv_ne, g.m); g.consumed_sum += g.queue.front(); g.queue.pop_front(); g.consumed_n++; if (g.c.noise % 3) p_cond_variable_broadcast(g.cv_nf); else p_cond_variable_signal(g.cv_nf); }
+      p_mutex_unlock(g.m);
     }
   } else if (k == "ticket") {
     auto &o = g.olds[(size_t)ti];
@@ -148,13 +178,49 @@ void *worker(void *arg) {
 
 struct Outcome { string verdict, klass; bool nontrivial = false; uint64_t fp = 0; };
 
+void thr_tls_free(ppointer p) { G->tls_destroyed++; free(p); }
+ppointer thr_body(ppointer arg) {
+  long i = (long)arg; Shared &g = *G;
+  p_uthread_set_local(g.key, malloc(8));
+  if (i % 2) p_uthread_replace_local(g.key, malloc(8));     // +1 notifier call now, +1 at exit
+  g.results[(size_t)i] = 1000 + i;                             // plain store, read by main after join
+  if (i % 3 == 0) p_uthread_exit((pint)(i + 5));
+  return NULL;
+}
+Outcome run_threads_case(const Case &c) {
+  Outcome o; Shared g; G = &g; g.c = c;
+  auto fail = [&](const string &k, const string &m) { if (o.verdict.empty()) { o.verdict = m; o.klass = k; } };
+  int rounds = std::max(1, c.N / 200);
+  for (int r = 0; r < rounds && o.verdict.empty(); r++) {
+    int T = c.T; g.results.assign((size_t)T, 0); g.tls_destroyed = 0; g.key = p_uthread_local_new(thr_tls_free);
+    std::vector<PUThread *> hs;
+    for (long i = 0; i < T; i++) hs.push_back(p_uthread_create(thr_body, (ppointer)i, TRUE, i % 2 ? "rt-thread" : NULL));
+    long expect_destroy = 0;
+    for (long i = 0; i < T; i++) {
+      if (!hs[(size_t)i]) { fail("create", "p_uthread_create failed"); continue; }
+      if (i % 4 == 1) { p_uthread_ref(hs[(size_t)i]); p_uthread_unref(hs[(size_t)i]); }
+      pint code = p_uthread_join(hs[(size_t)i]);
+      pint want = i % 3 == 0 ? (pint)(i + 5) : 0;
+      if (code != want) fail("join-code", "join returned " + std::to_string(code) + " expected " + std::to_string(want));
+      if (g.results[(size_t)i] != 1000 + i) fail("join-visibility", "value written by the thread not visible after join");
+      p_uthread_unref(hs[(size_t)i]);
+      expect_destroy += (i % 2) ? 2 : 1;
+    }
+    if (g.tls_destroyed != expect_destroy) fail("tls-notifier", "TLS notifier ran " + std::to_string(g.tls_destroyed.load()) + " times, expected " + std::to_string(expect_destroy));
+    p_uthread_local_free(g.key);
+  }
+  o.nontrivial = c.T >= 2; o.fp = vl::fnv1a(to_text(c)); vl::stats().klass("kind_thr"); G = nullptr;
+  return o;
+}
 Outcome run_case(const Case &c) {
+  if (c.kind == "thr") return run_threads_case(c);
   Outcome o;
   Shared g; G = &g;
   g.c = c;
   if (g.c.kind.rfind("sb", 0) == 0) g.c.T = 2;
   int T = g.c.T;
-  g.m = p_mutex_new(); g.s = p_spinlock_new();
+  g.m = p_mutex_new(); g.s = p_spinlock_new(); g.rw = p_rwlock_new(); g.cv_ne = p_cond_variable_new(); g.cv_nf = p_cond_variable_new(); g.cap = 1 + c.noise % 3;
+  if (c.kind == "bbuf" && g.c.T < 2) g.c.T = 2;
   g.olds.assign((size_t)T, {});
   if (c.kind == "countdown") g.word = (pint)((long)T * c.N);
   pthread_barrier_init(&g.bar, NULL, (unsigned)T);
@@ -167,6 +233,14 @@ Outcome run_case(const Case &c) {
   if (c.kind == "lockrec" || c.kind == "trylockrec") {
     if (g.rec_counter != total) fail("lost-update", "lost update under " + string(c.lock == 'm' ? "PMutex" : "PSpinLock") + ": counter " + std::to_string(g.rec_counter) + " != " + std::to_string(total));
     o.nontrivial = T >= 2 && total >= 1000;
+  } else if (c.kind == "rwrec") {
+    if (g.rec_counter != g.trues) fail("lost-update", "lost update under the writer lock: counter " + std::to_string(g.rec_counter) + " != writer sections " + std::to_string(g.trues.load()));
+    o.nontrivial = T >= 3;
+  } else if (c.kind == "bbuf") {
+    int nprod = (T + 1) / 2; long want_n = (long)nprod * c.N, want_sum = 0;
+    for (int p = 0; p < nprod; p++) for (long i = 0; i < c.N; i++) want_sum += (long)(2 * p) * 1000000L + i;
+    if (g.consumed_n != want_n || g.consumed_sum != want_sum || !g.queue.empty()) fail("exchange", "producer/consumer exchange lost or duplicated items: consumed " + std::to_string(g.consumed_n) + " of " + std::to_string(want_n));
+    o.nontrivial = T >= 3;
   } else if (c.kind == "ticket") {
     vector<long> all; for (auto &v : g.olds) all.insert(all.end(), v.begin(), v.end());
     std::sort(all.begin(), all.end());
@@ -197,7 +271,7 @@ Outcome run_case(const Case &c) {
     o.nontrivial = true;
   }
   pthread_barrier_destroy(&g.bar);
-  p_mutex_free(g.m); p_spinlock_free(g.s);
+  p_mutex_free(g.m); p_spinlock_free(g.s); p_rwlock_free(g.rw); p_cond_variable_free(g.cv_ne); p_cond_variable_free(g.cv_nf);
   o.fp = vl::fnv1a(to_text(c));
   vl::stats().klass("kind_" + c.kind + (c.kind.find("lock") != string::npos ? string("_") + c.lock : string("")));
   G = nullptr;
@@ -216,6 +290,8 @@ rc::Gen<Case> genCase(bool tsan, bool thorough) {
                     if (c.kind == "mp") c.N = std::min(c.N, 3000);
                     if (c.kind.rfind("sb", 0) == 0) { c.N = tsan ? 2000 : 300000; c.T = 2; }
                     if (c.kind == "zerorace") { c.N = tsan ? 3000 : 60000; c.T = std::min(c.T, 6); }
+                    if (c.kind == "bbuf") { c.N = std::min(c.N, tsan ? 120 : 3000); if (c.T % 2) c.T++; c.T = std::min(c.T, tsan ? 6 : 12); }
+                    if (c.kind == "thr") { c.T = std::min(c.T, 8); c.N = std::min(c.N, 2000); }
                     if (c.kind == "trylockrec") c.N = std::min(c.N, 3000);
                     return c; });
 }
